@@ -145,6 +145,7 @@ class SimulationControl:
         # Reset run state
         self._sim._current_time = self._sim._start_time
         self._sim._events_processed = 0
+        self._sim._events_cancelled = 0
         self._sim._is_running = False
         self._sim._is_paused = False
         self._sim._last_event = None
